@@ -612,11 +612,7 @@ def judge(case, root, c, ran):
     if c.timed_out:
         inconc.append(f"watchdog on compile of case {case['idx']}")
         return done()
-    if c.internal_error:
-        V("internal_error", "internal_error|" + c.panic_sig(), f"internal compiler error on a tree of {len(case['nodes'])} files: {c.brief()[:300]}")
-        return done()
-
-    # ---- the per-file trace
+    # ---- the per-file trace (looked at first: it also explains most internal errors)
     headers = HEADER.findall(c.out)
     counts = {}
     for h in headers:
@@ -625,6 +621,15 @@ def judge(case, root, c, ran):
     twice = sorted(h for h, n in counts.items() if n > 1)
     if twice:
         V("file_compiled_twice", "file_compiled_twice", f"{', '.join(rel(h) for h in twice)} parsed {counts[twice[0]]} times (headers of --verbose-hir all): {[rel(h) for h in headers]}")
+    if c.internal_error:
+        if M["invalid"]:
+            exp = f"expected: rejected because of {rel(M['invalid'][0][0])}: #{M['invalid'][0][1]['kind']}(\"{M['invalid'][0][1]['arg']}\") ({M['invalid'][0][2]})"
+        else:
+            exp = "expected: accepted"
+        tail = [l for l in (c.out + "\n" + c.err).splitlines() if R.PANIC_PAT.search(l)]
+        V("internal_error", "internal_error|" + c.panic_sig(), f"internal compiler error on a tree of {len(case['nodes'])} files ({exp}): {' / '.join(tail)[:300] or c.brief()[-300:]}",
+          cli_tail=(c.out + "\n" + c.err)[-1500:])
+        return done()
     extra = sorted(set(headers) - set(M["reach"]))
     if extra:
         V("unreachable_file_compiled", "unreachable_file_compiled", f"compiled {', '.join(rel(h) for h in extra)}, which no import reachable from the entry file resolves to (expected exactly {[rel(p) for p in M['reach']]})")
